@@ -175,6 +175,19 @@ CLAIMED["C14"] = dict(
          "and by a route-against-route campaign over every writable format (SF_INFO, samples, strings, errors, written bytes). OS behaviour of descriptors and pipes is exercised, not modelled.",
     technique="Lean 4 theorems over a hand-written model + sampled correspondence on the real shim primitives + route-against-route campaign on implementation transcripts",
     design_ref="DESIGN.md §7 C14")
+CLAIMED["C19"] = dict(
+    text="Proof (Lean 4) over a World model (SfModel/World.lean: slot table, backing stores, and the process-wide variables sf_errno / sf_parselog / sf_syserr / "
+         "the psf_rand_int32 seed / the float capability statics, written exactly where the C writes them; every mutable static of src/ is enumerated in the file) around the "
+         "validated RAW/AU/WAV handle model: step_frame and step_local (a call changes and reads nothing outside its slot and its store), error_state_isolated, "
+         "globals_only_null (the process-wide state reaches only results of NULL-handle calls), interleaving_irrelevant / every_merge_equals_solo (for EVERY merge of any number of "
+         "per-handle scripts on disjoint stores each handle's transcript, final handle and final store bytes equal its solo run; induction over the history), "
+         "history_irrelevant / prelude_irrelevant (any earlier use of the library is invisible to a later handle). No excluded class: no violation of C19 is known. "
+         "Correspondence sampled: merged 2-8 handle RAW/AU/WAV scripts with failing opens and NULL-handle calls, implementation vs `sfmodel world` line by line. "
+         "Partial for the opaque block codecs (GSM 06.10, G.72x, NMS, ALAC, DWVW, OKI, IMA/MS ADPCM, SDS, PAF24): static state inside them is covered by the all-format "
+         "campaign on the implementation's own transcripts (solo in a fresh process vs merged in groups of 2-8, twins of one codec, all 70 merges of two 4-call scripts, "
+         "after a prelude using every encoding), not by the model.",
+    technique="Lean 4 theorems over a hand-written World model + sampled correspondence (sfmodel world vs sfh under ASan) + solo-vs-merged predicate on implementation transcripts for every writable format",
+    design_ref="DESIGN.md §7 C19")
 
 def main():
     checks = []
